@@ -112,7 +112,13 @@ type Conn struct {
 	BytesIn   int64
 	BytesOut  int64
 	WriteHook func(c *Conn, b []byte) // harness callback evaluated inside Write (same point)
+	// SentButFailed > 0: that many of the next Writes put their bytes on the wire and still report an
+	// error (a write deadline that expires after the kernel took the data, an error surfacing late)
+	SentButFailed int
 }
+
+// ErrSentButFailed is what a Write configured with SentButFailed returns.
+var ErrSentButFailed = errors.New("vnet: write error reported after the data was sent")
 
 // Pair creates a connected pair. msg=true: one Write is one Read (what TLSConn / WebSocketConn give
 // the multiplexer); msg=false: byte stream.
@@ -248,6 +254,10 @@ func (c *Conn) Write(b []byte) (int, error) {
 	}
 	if c.WriteHook != nil {
 		c.WriteHook(c, cp)
+	}
+	if c.SentButFailed > 0 {
+		c.SentButFailed--
+		return len(b), ErrSentButFailed
 	}
 	return len(b), nil
 }
